@@ -66,22 +66,348 @@ fn u5_dispatch() {
     let b = alias(&a);
     drop(b);
     let (du, dua, dc, oc) = unsafe { (CALLS_DU, CALLS_DUA, CALLS_DC, CALLS_OC) };
-    assert!(a.inner().weak() == w, "U5.frame.weak_unchanged");
+    kani::assert(a.inner().weak() == w, "U5.frame.weak_unchanged");
     if s == 0 || s == MAX {
-        assert!(a.inner().strong() == s, "U5.dead_handle.no_write");
-        assert!(du == 0 && dua == 0 && dc == 0 && oc == 0, "U5.dead_handle.no_call");
+        kani::assert(a.inner().strong() == s, "U5.dead_handle.no_write");
+        kani::assert(du == 0 && dua == 0 && dc == 0 && oc == 0, "U5.dead_handle.no_call");
     } else {
-        assert!(a.inner().strong() == s - 1, "U5.live.strong_minus_one");
+        kani::assert(a.inner().strong() == s - 1, "U5.live.strong_minus_one");
         if !has_link {
-            assert!(oc == 0 && dc == 0 && dua == 0, "U5.empty_table.no_trace_no_group_teardown");
-            assert!(du == (if s == 1 { 1 } else { 0 }), "U5.empty_table.drop_unreachable_iff_now_zero");
+            kani::assert(oc == 0 && dc == 0 && dua == 0, "U5.empty_table.no_trace_no_group_teardown");
+            kani::assert(du == (if s == 1 { 1 } else { 0 }), "U5.empty_table.drop_unreachable_iff_now_zero");
         } else if s == 1 {
-            assert!(dua == 1 && du == 0 && oc == 0 && dc == 0, "U5.links_zero.drop_unreachable_with_adoptions_once");
+            kani::assert(dua == 1 && du == 0 && oc == 0 && dc == 0, "U5.links_zero.drop_unreachable_with_adoptions_once");
         } else {
-            assert!(oc == 1 && du == 0 && dua == 0, "U5.links_alive.trace_exactly_once");
-            assert!(dc == (if unsafe { OC_SOME } { 1 } else { 0 }), "U5.links_alive.drop_cycle_iff_orphaned");
+            kani::assert(oc == 1 && du == 0 && dua == 0, "U5.links_alive.trace_exactly_once");
+            kani::assert(dc == (if unsafe { OC_SOME } { 1 } else { 0 }), "U5.links_alive.drop_cycle_iff_orphaned");
         }
     }
-    assert!(borrow_free(&a), "U5.no_table_borrow_left");
+    kani::assert(borrow_free(&a), "U5.no_table_borrow_left");
     core::mem::forget(a);
+}
+
+// ------------------------------------------------------------ U6 teardown
+// Payload with a destructor: the call-out observer.  It performs no API action itself; it asserts the
+// call-out invariant as a state predicate, read through accessors, and counts destructor runs.
+use crate::rc::RcBox;
+use crate::verif::vmap;
+
+static mut PROBE_DROPS: usize = 0;
+static mut REG: *const RcBox<Probe> = core::ptr::null();
+static mut REG_PEER: *const RcBox<Probe> = core::ptr::null();
+static mut EXPECT_WEAK: usize = 0;
+
+pub struct Probe(u8);
+
+impl Drop for Probe {
+    fn drop(&mut self) {
+        unsafe {
+            PROBE_DROPS += 1;
+            let b = &*REG;
+            // the dying object is already marked Gone, is still allocated (this read is checked), and its
+            // implicit weak has not been released yet
+            kani::assert(b.is_uninit(), "U6.callout.dying_object_already_gone");
+            kani::assert(b.weak() == EXPECT_WEAK, "U6.callout.implicit_weak_not_yet_released");
+            if !REG_PEER.is_null() {
+                let p = &*REG_PEER;
+                // no table borrow is outstanding on the peer, and the peer no longer names the dying object
+                kani::assert(p.links().try_borrow_mut().is_ok(), "U6.callout.no_borrow_outstanding_on_peer");
+                let t = p.links().borrow();
+                kani::assert(
+                    t.get(Link::forward(core::ptr::NonNull::new_unchecked(REG as *mut _))) == 0
+                        && t.get(Link::backward(core::ptr::NonNull::new_unchecked(REG as *mut _))) == 0,
+                    "U6.callout.peer_no_longer_names_dying_object",
+                );
+            }
+        }
+    }
+}
+
+fn tag_table<T>(rc: &Rc<T>, tag: u8) {
+    links_of(rc).borrow_mut().set_tag(tag);
+}
+
+/// drop_unreachable: value destroyed exactly once after the sentinel is set; table storage released once;
+/// weak-1; allocation kept while other Weak handles exist.
+#[kani::proof]
+#[kani::unwind(6)]
+fn u6_drop_unreachable_keeps() {
+    let a = Rc::new(Probe(3));
+    let w: usize = kani::any();
+    kani::assume(w >= 2);
+    set_counts(&a, 0, w);
+    tag_table(&a, 1);
+    unsafe {
+        REG = a.ptr.as_ptr();
+        EXPECT_WEAK = w;
+    }
+    let mut h = alias(&a);
+    unsafe { drop_unreachable(&mut h) };
+    core::mem::forget(h);
+    kani::assert(unsafe { PROBE_DROPS } == 1, "U6.drop_unreachable.value_destroyed_exactly_once");
+    kani::assert(unsafe { vmap::TAGGED_DROPS } == 1, "U6.drop_unreachable.table_storage_released_exactly_once");
+    kani::assert(a.inner().is_uninit(), "U6.drop_unreachable.ends_gone");
+    kani::assert(a.inner().weak() == w - 1, "U6.drop_unreachable.weak_minus_one");
+    core::mem::forget(a);
+}
+
+#[kani::proof]
+#[kani::unwind(6)]
+fn u6_drop_unreachable_releases() {
+    let a = Rc::new(Probe(3));
+    set_counts(&a, 0, 1);
+    tag_table(&a, 1);
+    let p = a.ptr.as_ptr();
+    unsafe {
+        REG = p;
+        EXPECT_WEAK = 1;
+    }
+    let mut h = alias(&a);
+    core::mem::forget(a);
+    unsafe { drop_unreachable(&mut h) };
+    core::mem::forget(h);
+    kani::assert(unsafe { PROBE_DROPS } == 1, "U6.drop_unreachable.value_destroyed_exactly_once");
+    kani::assert(unsafe { vmap::TAGGED_DROPS } == 1, "U6.drop_unreachable.table_storage_released_exactly_once");
+    let probe = unsafe { *(p as *const usize) };
+    kani::assert(probe == 0 || probe != 0, "PROBE-AFTER-RELEASE");
+}
+
+/// Pre-state of the two-object zero-count teardown: x is dying (strong 0), p is a live peer.
+/// Structure: `xf`/`xb` = multiplicity of Forward(p)/Backward(p) in x's table, mirrored in p's table as
+/// Backward(x)/Forward(x) (I2); `pself` = an unrelated record in p's table (frame).
+struct Pre2 {
+    wx: usize,
+    sp: usize,
+    wp: usize,
+    xf: usize,
+    xb: usize,
+    pself: usize,
+}
+
+fn setup2(x: &Rc<Probe>, p: &Rc<Probe>, xf: usize, xb: usize) -> Pre2 {
+    let pre = Pre2 { wx: kani::any(), sp: kani::any(), wp: kani::any(), xf, xb, pself: kani::any() };
+    kani::assume(pre.wx >= 1);
+    set_counts(x, 0, pre.wx);
+    set_counts(p, pre.sp, pre.wp);
+    install(x, fwd(p), xf);
+    install(p, bwd(x), xf);
+    install(x, bwd(p), xb);
+    install(p, fwd(x), xb);
+    install(p, lpb(p), pre.pself);
+    tag_table(x, 1);
+    unsafe {
+        REG = x.ptr.as_ptr();
+        REG_PEER = p.ptr.as_ptr();
+        EXPECT_WEAK = pre.wx;
+    }
+    pre
+}
+
+fn check2(x: &Rc<Probe>, p: &Rc<Probe>, pre: &Pre2) {
+    kani::assert(unsafe { PROBE_DROPS } == 1, "U6.dua.value_destroyed_exactly_once");
+    kani::assert(unsafe { vmap::TAGGED_DROPS } == 1, "U6.dua.own_table_storage_released_exactly_once");
+    // whole-view postcondition on the peer: exactly the records involving x disappear
+    kani::assert(cnt(p, fwd(x)) == 0 && cnt(p, bwd(x)) == 0, "U6.dua.peer_loses_every_record_of_dying_object");
+    kani::assert(cnt(p, lpb(p)) == pre.pself && table_len(p) == (if pre.pself > 0 { 1 } else { 0 }), "U6.dua.peer_other_records_untouched");
+    kani::assert(p.inner().strong() == pre.sp && p.inner().weak() == pre.wp, "U6.dua.peer_counters_untouched");
+    kani::assert(borrow_free(p), "U6.dua.no_borrow_left_on_peer");
+}
+
+fn run_dua_keeps(xf: usize, xb: usize) {
+    let x = Rc::new(Probe(1));
+    let p = Rc::new(Probe(2));
+    let pre = setup2(&x, &p, xf, xb);
+    kani::assume(pre.wx >= 2);
+    let mut h = alias(&x);
+    unsafe { drop_unreachable_with_adoptions(&mut h) };
+    core::mem::forget(h);
+    check2(&x, &p, &pre);
+    kani::assert(x.inner().is_uninit(), "U6.dua.ends_gone");
+    kani::assert(x.inner().weak() == pre.wx - 1, "U6.dua.weak_minus_one");
+    core::mem::forget((x, p));
+}
+
+/// x adopts p (any multiplicity)
+#[kani::proof]
+#[kani::unwind(6)]
+fn u6_dua_owner_dies() {
+    let k: usize = kani::any();
+    kani::assume(k >= 1);
+    run_dua_keeps(k, 0);
+}
+
+/// p has a (stale) adoption of x (any multiplicity): the dying adoptee purges itself from its former adopter
+#[kani::proof]
+#[kani::unwind(6)]
+fn u6_dua_adoptee_dies() {
+    let k: usize = kani::any();
+    kani::assume(k >= 1);
+    run_dua_keeps(0, k);
+}
+
+/// mutual adoption with independent multiplicities
+#[kani::proof]
+#[kani::unwind(6)]
+fn u6_dua_mutual() {
+    let (k1, k2): (usize, usize) = (kani::any(), kani::any());
+    kani::assume(k1 >= 1 && k2 >= 1);
+    run_dua_keeps(k1, k2);
+}
+
+/// last weak: the allocation is released
+#[kani::proof]
+#[kani::unwind(6)]
+fn u6_dua_releases() {
+    let x = Rc::new(Probe(1));
+    let p = Rc::new(Probe(2));
+    let (k1, k2): (usize, usize) = (kani::any(), kani::any());
+    let pre = setup2(&x, &p, k1, k2);
+    kani::assume(pre.wx == 1 && k1 + k2 >= 1);
+    let raw = x.ptr.as_ptr();
+    let mut h = alias(&x);
+    unsafe { drop_unreachable_with_adoptions(&mut h) };
+    core::mem::forget(h);
+    kani::assert(unsafe { PROBE_DROPS } == 1, "U6.dua.value_destroyed_exactly_once");
+    kani::assert(cnt(&p, Link::forward(unsafe { core::ptr::NonNull::new_unchecked(raw) })) == 0, "U6.dua.peer_loses_every_record_of_dying_object");
+    core::mem::forget((x, p));
+    let probe = unsafe { *(raw as *const usize) };
+    kani::assert(probe == 0 || probe != 0, "PROBE-AFTER-RELEASE");
+}
+
+/// self-adoption (through a clone and through the same handle) on the zero-count path
+#[kani::proof]
+#[kani::unwind(6)]
+fn u6_dua_self_adopted() {
+    let x = Rc::new(Probe(1));
+    let (w, f, l): (usize, usize, usize) = (kani::any(), kani::any(), kani::any());
+    kani::assume(w >= 2 && f + l >= 1 && f < MAX && l < MAX);
+    set_counts(&x, 0, w);
+    install(&x, fwd(&x), f);
+    install(&x, bwd(&x), f);
+    install(&x, lpb(&x), l);
+    tag_table(&x, 1);
+    unsafe {
+        REG = x.ptr.as_ptr();
+        EXPECT_WEAK = w;
+    }
+    let mut h = alias(&x);
+    unsafe { drop_unreachable_with_adoptions(&mut h) };
+    core::mem::forget(h);
+    kani::assert(unsafe { PROBE_DROPS } == 1, "U6.dua.value_destroyed_exactly_once");
+    kani::assert(unsafe { vmap::TAGGED_DROPS } == 1, "U6.dua.own_table_storage_released_exactly_once");
+    kani::assert(x.inner().is_uninit() && x.inner().weak() == w - 1, "U6.dua.ends_gone_weak_minus_one");
+    core::mem::forget(x);
+}
+
+// ------------------------------------------------------------ U6 drop_cycle (group teardown)
+// Payload u8 (a payload with a Drop impl does not fit in CBMC's memory here); the call-out states are
+// observed from the table stand-in's Drop, which runs at the same program point as the members' values
+// are destroyed (`drop(inners)`).
+static mut GA: *const RcBox<u8> = core::ptr::null();
+static mut GB: *const RcBox<u8> = core::ptr::null();
+static mut GWA: usize = 0;
+static mut GWB: usize = 0;
+static mut OBS_CALLS: usize = 0;
+
+fn group_observer(_tag: u8) {
+    unsafe {
+        OBS_CALLS += 1;
+        let (a, b) = (&*GA, &*GB);
+        kani::assert(a.is_uninit() && b.is_uninit(), "U6.drop_cycle.callout.all_members_gone_before_any_value_dies");
+        kani::assert(a.weak() == GWA && b.weak() == GWB, "U6.drop_cycle.callout.no_member_released_before_last_value_dies");
+    }
+}
+
+fn ring2(ca: usize, cb: usize, sa: usize, sb: usize, wa: usize, wb: usize) -> (Rc<u8>, Rc<u8>, HashMap<Link<u8>, usize>) {
+    let a = Rc::new(1u8);
+    let b = Rc::new(2u8);
+    set_counts(&a, sa, wa);
+    set_counts(&b, sb, wb);
+    // a holds b (cb records), b holds a (ca records)
+    install(&a, fwd(&b), cb);
+    install(&b, bwd(&a), cb);
+    install(&b, fwd(&a), ca);
+    install(&a, bwd(&b), ca);
+    tag_table(&a, 1);
+    tag_table(&b, 2);
+    let mut m: HashMap<Link<u8>, usize> = HashMap::default();
+    m.insert(fwd(&a), ca);
+    m.insert(fwd(&b), cb);
+    unsafe {
+        GA = a.ptr.as_ptr();
+        GB = b.ptr.as_ptr();
+        GWA = wa;
+        GWB = wb;
+        vmap::DROP_OBSERVER = Some(group_observer);
+    }
+    (a, b, m)
+}
+
+/// symmetric two-member ring, counts in the orphan map and strong counts symbolic within the unwind
+/// bound, weak symbolic: every key ends Gone, all members Gone before the first call-out, none released
+/// before the last, weak-1 each, tables released once each, outsider untouched.
+#[kani::proof]
+#[kani::unwind(7)]
+fn u6_drop_cycle_ring2() {
+    let (ca, cb, sa, sb): (usize, usize, usize, usize) = (kani::any(), kani::any(), kani::any(), kani::any());
+    let (wa, wb): (usize, usize) = (kani::any(), kani::any());
+    kani::assume(1 <= ca && ca <= 3 && 1 <= cb && cb <= 3);
+    kani::assume(1 <= sa && sa <= ca && 1 <= sb && sb <= cb);
+    kani::assume(wa >= 2 && wb >= 2);
+    let (a, b, m) = ring2(ca, cb, sa, sb, wa, wb);
+    let c = Rc::new(9u8);
+    let (sc, wc): (usize, usize) = (kani::any(), kani::any());
+    set_counts(&c, sc, wc);
+    unsafe { drop_cycle(m) };
+    kani::assert(a.inner().is_uninit() && b.inner().is_uninit(), "U6.drop_cycle.every_key_of_the_orphan_map_ends_gone");
+    kani::assert(a.inner().weak() == wa - 1 && b.inner().weak() == wb - 1, "U6.drop_cycle.each_member_weak_minus_one_exactly_once");
+    kani::assert(unsafe { vmap::TAGGED_DROPS } == 2 && unsafe { OBS_CALLS } == 2, "U6.drop_cycle.each_member_table_released_exactly_once");
+    kani::assert(c.inner().strong() == sc && c.inner().weak() == wc, "U6.drop_cycle.frame.non_member_counters_untouched");
+    core::mem::forget((a, b, c));
+}
+
+/// a member with more incoming than outgoing group references: a holds itself (through a clone) and b
+#[kani::proof]
+#[kani::unwind(7)]
+fn u6_drop_cycle_unequal_degree() {
+    let a = Rc::new(1u8);
+    let b = Rc::new(2u8);
+    let (wa, wb): (usize, usize) = (kani::any(), kani::any());
+    kani::assume(wa >= 2 && wb >= 2);
+    set_counts(&a, 1, wa);
+    set_counts(&b, 1, wb);
+    install(&a, fwd(&a), 1);
+    install(&a, bwd(&a), 1);
+    install(&a, fwd(&b), 1);
+    install(&b, bwd(&a), 1);
+    tag_table(&a, 1);
+    tag_table(&b, 2);
+    let mut m: HashMap<Link<u8>, usize> = HashMap::default();
+    m.insert(fwd(&a), 1);
+    m.insert(fwd(&b), 1);
+    unsafe {
+        GA = a.ptr.as_ptr();
+        GB = b.ptr.as_ptr();
+        GWA = wa;
+        GWB = wb;
+        vmap::DROP_OBSERVER = Some(group_observer);
+    }
+    unsafe { drop_cycle(m) };
+    kani::assert(a.inner().is_uninit() && b.inner().is_uninit(), "U6.drop_cycle.every_key_of_the_orphan_map_ends_gone");
+    kani::assert(a.inner().weak() == wa - 1 && b.inner().weak() == wb - 1, "U6.drop_cycle.each_member_weak_minus_one_exactly_once");
+    kani::assert(unsafe { vmap::TAGGED_DROPS } == 2, "U6.drop_cycle.each_member_table_released_exactly_once");
+    core::mem::forget((a, b));
+}
+
+/// last Weak gone: the member allocations are released (probe)
+#[kani::proof]
+#[kani::unwind(7)]
+fn u6_drop_cycle_releases() {
+    let (a, b, m) = ring2(1, 1, 1, 1, 1, 2);
+    let raw = a.ptr.as_ptr();
+    unsafe { drop_cycle(m) };
+    kani::assert(b.inner().is_uninit() && b.inner().weak() == 1, "U6.drop_cycle.member_with_weak_left_is_kept");
+    core::mem::forget((a, b));
+    let probe = unsafe { *(raw as *const usize) };
+    kani::assert(probe == 0 || probe != 0, "PROBE-AFTER-RELEASE");
 }
